@@ -509,6 +509,54 @@ class Body:
                 out.append(Site(self, bb, "term"))
         return out
 
+    def reachable_with_flags(self, start_bb, env=None, max_states=20000):
+        """Blocks reachable from start_bb when boolean locals that were assigned a constant on the
+        way are taken at their value in `switchInt` on that very local (a small path-sensitive
+        refinement: `flag = true; break; ... if flag { break }`)."""
+        out = set()
+        seen = set()
+        work = [(start_bb, frozenset((env or {}).items()))]
+        while work:
+            bb, fe = work.pop()
+            if (bb, fe) in seen or bb not in self.live_blocks:
+                continue
+            seen.add((bb, fe))
+            if len(seen) > max_states:
+                return self.reachable_from([start_bb])
+            out.add(bb)
+            e = dict(fe)
+            for st in self.blocks[bb]["stmts"]:
+                if st["k"] != "assign" or st["place"]["p"]:
+                    continue
+                l = st["place"]["l"]
+                rv = st["rv"]
+                if rv["k"] == "use" and rv["op"].get("k") == "const" and rv["op"].get("ty") == "bool":
+                    e[l] = bool(rv["op"].get("val"))
+                elif rv["k"] == "use" and op_local(rv["op"]) in e and not (op_place(rv["op"]) or {}).get("p"):
+                    e[l] = e[op_local(rv["op"])]
+                elif rv["k"] == "un" and rv.get("op") == "Not" and op_local(rv["a"]) in e:
+                    e[l] = not e[op_local(rv["a"])]
+                else:
+                    e.pop(l, None)
+            t = self.blocks[bb]["term"]
+            if t["k"] == "call" and not t["dest"]["p"]:
+                e.pop(t["dest"]["l"], None)
+            nxt = list(self.succ[bb])
+            if t["k"] == "switch":
+                dl = op_local(t["discr"])
+                pl = op_place(t["discr"])
+                if dl in e and pl is not None and not pl["p"]:
+                    v = int(e[dl])
+                    tgt = t["otherwise"]
+                    for val, tg in t["targets"]:
+                        if val == v:
+                            tgt = tg
+                    nxt = [tgt]
+            fe2 = frozenset(e.items())
+            for n in nxt:
+                work.append((n, fe2))
+        return out
+
     def enclosing_loop(self, bb, max_up=24):
         """(header, loop) of the innermost natural loop that contains bb, or (None, None)."""
         hb = bb
